@@ -1,6 +1,7 @@
 use crate::util::Tok;
 
 mod c03;
+mod c04;
 mod c06;
 mod c11;
 mod c11_live;
@@ -10,6 +11,7 @@ pub fn run(engine: &str, toks: Vec<Tok>) -> Vec<Tok> {
         "c03_is_global" => c03::is_global(toks),
         "c03_connect" => c03::connect(toks),
         "c03_v4_sweep" => c03::v4_sweep(toks),
+        "c04_eval" => c04::eval(toks),
         "c06_decode" => c06::decode(toks),
         "c06_encode" => c06::encode(toks),
         "c11_checksum" => c11::checksum(toks),
